@@ -78,6 +78,7 @@ static Val run_lauth(const Val &c)
         case 0:
             if (!mw) {
                 if (op.at(2).asInt()) { QFile f(file); f.open(QIODevice::WriteOnly); f.write("old"); f.close(); ::chmod(file.toUtf8().constData(), 0666); }
+                QCoreApplication::setApplicationName("hxverif");      // a new instance is created under the usual name
                 mode_t old = ::umask(mode_t(op.at(1).asInt()));
                 mw = new LocalAuthMiddleware;
                 ::umask(old);
@@ -119,11 +120,13 @@ static Val run_lauth(const Val &c)
             }
             break;
         case 4: if (mw) { prev = token; delete mw; mw = nullptr; } break;
+        case 5: QCoreApplication::setApplicationName(QString::fromUtf8(op.at(1).asBytes())); break;     // the instance keeps the path it advertised
         default: throw std::runtime_error("badcase");
         }
         out.add(fileObs(file, token, verdict));
     }
     delete mw;
+    QCoreApplication::setApplicationName("hxverif");
     qputenv("HOME", oldHome);
     return out;
 }
